@@ -262,6 +262,9 @@ func submitCopyRule(p *Prog, r *Report, rule string) {
 					}
 				}
 			}
+			if !(fresh && notParam && copied) && len(fn.Params) > 1 && freshCopyOf(s.X, fn.Params[1]) {
+				fresh, notParam, copied = true, true, true
+			}
 			r.Check(fresh && notParam && copied, rule, "InmemProxy.SubmitTx:send-copy", p.ipos(in), fnName(fn), "the queued slice is a private copy", fmt.Sprintf("the transaction queued is not a fresh copy of the argument (fresh=%v notParam=%v copied=%v): the caller can modify it after submission", fresh, notParam, copied))
 		}
 	}
@@ -496,4 +499,48 @@ func c05resubmit(p *Prog, r *Report) {
 	}
 	r.Check(bad == "", rule, "SocketBabbleProxyClient.call:no-timeout-resend", p.pos(fn.Pos()), fnName(fn), "a request is re-sent only after the rpc layer reported its failure",
 		"the submission client stops waiting for an in-flight request after a timer ("+bad+") inside its retry loop and sends it again: a slow node receives the transaction twice and commits it twice")
+}
+
+// freshCopyOf: v is a copy of src made by one of the cloning idioms — append(<nil | empty | zero-capacity
+// slice>, src...), bytes.Clone(src), slices.Clone(src).
+func freshCopyOf(v ssa.Value, src ssa.Value) bool {
+	v = resolveLocalValue(v)
+	c, ok := unwrap(v).(*ssa.Call)
+	if !ok {
+		return false
+	}
+	isSrc := func(x ssa.Value) bool {
+		return flowsFromLocal(x, func(y ssa.Value) bool { return y == src })
+	}
+	if bi, isB := c.Call.Value.(*ssa.Builtin); isB && bi.Name() == "append" && len(c.Call.Args) == 2 {
+		if !isSrc(c.Call.Args[1]) {
+			return false
+		}
+		base := unwrap(c.Call.Args[0])
+		switch b := base.(type) {
+		case *ssa.Const:
+			return b.IsNil()
+		case *ssa.MakeSlice:
+			return true
+		case *ssa.Slice:
+			// x[:0:0] (no capacity to write into), or []T{} (a new zero-length array)
+			if b.Max != nil {
+				if k, isK := intConst(b.Max); isK && k == 0 {
+					return true
+				}
+			}
+			if al, isAl := b.X.(*ssa.Alloc); isAl {
+				if pt, isP := al.Type().Underlying().(*types.Pointer); isP {
+					if at, isA := pt.Elem().Underlying().(*types.Array); isA && at.Len() == 0 {
+						return true
+					}
+				}
+			}
+		}
+		return false
+	}
+	if f := calleeFunc(c.Common()); f != nil && f.Name() == "Clone" && f.Pkg() != nil && (f.Pkg().Path() == "bytes" || f.Pkg().Path() == "slices") && len(c.Call.Args) == 1 {
+		return isSrc(c.Call.Args[0])
+	}
+	return false
 }
